@@ -42,5 +42,11 @@ namespace World
 @[simp] theorem cloneOk_collecting (w : World) (x : Id) : (w.cloneOk x).collecting = w.collecting := (cloneOk_ctl w x).collecting
 @[simp] theorem cloneOk_finalizing (w : World) (x : Id) : (w.cloneOk x).finalizing = w.finalizing := (cloneOk_ctl w x).finalizing
 @[simp] theorem cloneOk_dropping (w : World) (x : Id) : (w.cloneOk x).dropping = w.dropping := (cloneOk_ctl w x).dropping
+@[simp] theorem updAll_stack (w : World) (l : List Id) (f : Obj → Obj) : (w.updAll l f).stack = w.stack := (updAll_ctl w l f).stack
+@[simp] theorem updAll_collecting (w : World) (l : List Id) (f : Obj → Obj) : (w.updAll l f).collecting = w.collecting := (updAll_ctl w l f).collecting
+@[simp] theorem updAll_finalizing (w : World) (l : List Id) (f : Obj → Obj) : (w.updAll l f).finalizing = w.finalizing := (updAll_ctl w l f).finalizing
+@[simp] theorem updAll_dropping (w : World) (l : List Id) (f : Obj → Obj) : (w.updAll l f).dropping = w.dropping := (updAll_ctl w l f).dropping
+@[simp] theorem updAll_pc (w : World) (l : List Id) (f : Obj → Obj) : (w.updAll l f).pc = w.pc := (updAll_same w l f).1
+@[simp] theorem updAll_events (w : World) (l : List Id) (f : Obj → Obj) : (w.updAll l f).events = w.events := (updAll_same w l f).2.1
 end World
 end RustCc
